@@ -104,7 +104,11 @@ func (am *ACMEIssuer) GetAccount(ctx context.Context, privateKeyPEM []byte) (acm
 	} else {
 		keyBytes, err := am.config.Storage.Load(ctx, am.storageKeyUserPrivateKey(am.CA, email))
 		if err == nil && bytes.Equal(bytes.TrimSpace(keyBytes), bytes.TrimSpace(privateKeyPEM)) {
-			return am.loadAccount(ctx, am.CA, email)
+			// if the account cannot be loaded (e.g. its registration is missing after a failed
+			// save was rolled back), confirm with the ACME server and save it again, as above
+			if account, err := am.loadAccount(ctx, am.CA, email); err == nil {
+				return account, nil
+			}
 		}
 	}
 	return am.lookUpAccount(ctx, privateKeyPEM)
